@@ -592,6 +592,103 @@ theorem eswap_refines (cfg : Cfg) (w : World) (ms : MSpec) (h : MRel w ms) (v u 
   · refine nothing "called `Option::unwrap()` on a `None` value" ?_ (Or.inl (by omega))
     simp only [step, WM.bind_apply, getVec_ok w v d hd hl, getVec_ok w u du hdu hlu, hvu, if_false, hi, WM.panic_apply]
 
+/-! ### values written into the spare capacity, then `set_len` -/
+
+/-- writing into the spare capacity changes cells only: element type, storage kind and trait set stay -/
+theorem writeFresh_keeps (v : Nat) (k : Nat) : ∀ (w : World) (x : VecSt) (i : Nat), w.vecs[v]? = some x → x.live = true →
+    i + k ≤ x.cap →
+    ∃ x', (writeFresh v i k w).1.vecs[v]? = some x' ∧ x'.ty = x.ty ∧ x'.bk = x.bk ∧ x'.cloneable = x.cloneable := by
+  induction k with
+  | zero =>
+    intro w x i hv _ _
+    exact ⟨x, by simpa [writeFresh] using hv, rfl, rfl, rfl⟩
+  | succ k ih =>
+    intro w x i hv hl hcap
+    have hlt : v < w.vecs.length := (List.getElem?_eq_some_iff.mp hv).1
+    have hb : i < x.cap := by omega
+    let x1 : VecSt := { x with cells := (x.cells.ensure (i + 1)).set i (.val w.created) }
+    let w1 : World := ({ w with created := w.created + 1 } : World).upd v x1
+    have hv1 : w1.vecs[v]? = some x1 := by simp [w1, hlt]
+    have hstep : writeFresh v i (k + 1) w = writeFresh v (i + 1) k w1 := by
+      have hvb : ({ w with created := w.created + 1 } : World).vecs[v]? = some x := hv
+      simp only [writeFresh, WM.bind_apply, fresh, World.writeCell, getVec_ok _ v x hvb hl, WM.lift,
+        VecSt.writeCell_ok x i _ hb, setVec_apply]
+      rfl
+    obtain ⟨x', h1, h2, h3, h4⟩ := ih w1 x1 (i + 1) hv1 hl (by show i + 1 + k ≤ x.cap; omega)
+    exact ⟨x', by rw [hstep]; exact h1, h2, h3, h4⟩
+
+/-- **`set_len` after writing the spare capacity refines**: the caller writes `k` fresh values into the first `k` slots of
+the spare capacity of a live vector (through `spare_capacity_mut` or `spare_bytes_mut`) and calls `set_len(len + k)`, with
+`len + k ≤ capacity` (the caller's obligation - `set_len` is `unsafe`): the vector then shows its old items followed by
+exactly those `k` new ones, in the order of the slots; its capacity, every other vector and the log of destructor runs are
+unchanged -/
+theorem set_len_refines (cfg : Cfg) (w : World) (ms : MSpec) (h : MRel w ms) (v k : Nat) (typed : Bool) (a : AVec)
+    (hv : ms.vecs[v]? = some (some a)) (hroom : a.items.length + k ≤ a.cap) :
+    MRel (step cfg (.setLenSpare v k typed) w).1
+        ⟨ms.vecs.set v (some { a with items := a.items ++ List.range' ms.next k }), ms.next + k⟩ ∧
+      (step cfg (.setLenSpare v k typed) w).2 = .ok [] ∧
+      (step cfg (.setLenSpare v k typed) w).1.dropLog = w.dropLog := by
+  obtain ⟨hinv, hf, hn, hlen, hsh⟩ := h
+  have hvlt : v < ms.vecs.length := (List.getElem?_eq_some_iff.mp hv).1
+  obtain ⟨d, hd⟩ : ∃ d, w.vecs[v]? = some d := ⟨w.vecs[v]'(by omega), List.getElem?_eq_getElem (by omega)⟩
+  obtain ⟨oa, hoa, hshow⟩ := hsh v d hd
+  rw [hv] at hoa; cases hoa
+  obtain ⟨hl, hty, habs, hcp, hbk⟩ := hshow
+  have hg := hinv.good v d hd
+  have hlenA := Refine.abs_len hg.wf habs
+  have hroom' : d.len + k ≤ d.cap := by omega
+  obtain ⟨hinv', _⟩ := Hist.step_inv cfg (.setLenSpare v k typed) w hinv trivial ⟨d, hd, hl, hroom'⟩
+  have hlt : v < w.vecs.length := (List.getElem?_eq_some_iff.mp hd).1
+  have hw1 := hg.wf.len_le; have hw2 := hg.wf.cells_le
+  obtain ⟨x', he, k1, k2, k3, k4, k5, k6, k7⟩ := writeFresh_full v k w d d.len hd hl hroom'
+  generalize hw1' : ({ w.upd v x' with created := w.created + k } : World) = w1 at he
+  have hv1 : w1.vecs[v]? = some x' := by rw [← hw1']; simp [hlt]
+  have e : step cfg (.setLenSpare v k typed) w = (w1.upd v { x' with len := d.len + k }, .ok []) := by
+    simp only [step, WM.bind_apply, getVec_ok w v d hd hl, hroom', if_true, he, setLen,
+      getVec_ok w1 v x' hv1 k3, setVec_apply, WM.pure_apply]
+  have hcge : d.len + k ≤ x'.cells.length := by
+    by_cases hk0 : k = 0
+    · omega
+    · have := k7 (k - 1) (by omega)
+      by_cases hlt' : d.len + (k - 1) < x'.cells.length
+      · omega
+      · simp [Mem.get, List.getD_eq_getElem?_getD,
+          List.getElem?_eq_none (by omega : x'.cells.length ≤ d.len + (k - 1))] at this
+  have hfresh : ∀ t, t < k → ({ x' with len := d.len + k } : VecSt).cells.get (d.len + t) =
+      .val ((List.range' w.created k).getD t 0) := by
+    intro t ht
+    show x'.cells.get (d.len + t) = _
+    rw [k7 t ht]
+    simp [List.getD_eq_getElem?_getD, List.getElem?_range', ht]
+  obtain ⟨habs', _⟩ := splice_final d hg d.len d.len k (List.range' w.created k) (Nat.le_refl _) (Nat.le_refl _)
+    { x' with len := d.len + k } (by simp) (by simp) hcge
+    (by show x'.cells.length ≤ x'.cap; rw [k2]; omega) k6 hfresh (fun t ht => absurd ht (by omega))
+  rw [e] at hinv' ⊢
+  have hvecs : (w1.upd v { x' with len := d.len + k }).vecs = w.vecs.set v { x' with len := d.len + k } := by
+    rw [← hw1']; simp [World.upd]
+  refine ⟨⟨hinv', by rw [← hw1']; exact hf, by rw [← hw1']; show w.created + k = ms.next + k; rw [hn],
+    by rw [hvecs]; simp [hlen], ?_⟩, rfl, by rw [← hw1']; rfl⟩
+  intro u du hu
+  rw [hvecs] at hu
+  by_cases huv : u = v
+  · subst huv
+    rw [List.getElem?_set_self hlt] at hu
+    cases hu
+    refine ⟨some { a with items := a.items ++ List.range' ms.next k }, by simp [hvlt], ?_⟩
+    obtain ⟨x'', hx'', q1, q2, q3⟩ := writeFresh_keeps u k w d d.len hd hl hroom'
+    rw [he, hv1] at hx''
+    cases hx''
+    refine ⟨k3, by show x'.ty = a.ty; rw [q1, hty], ?_, by show x'.cap = a.cap; rw [k2, hcp],
+      by show VecSt.resizable x'.bk = _ ∧ x'.cloneable = _; rw [q2, q3]; exact hbk⟩
+    rw [habs', seg_self]
+    have hl0 : seg d.abs 0 d.len = d.abs := by
+      have := seg_zero_length d.abs; rw [VecSt.abs_length hg.wf] at this; exact this
+    rw [hl0, habs, List.take_of_length_le (by simp : (List.range' w.created k).length ≤ k), hn]
+    simp
+  · rw [List.getElem?_set_ne (Ne.symm huv)] at hu
+    obtain ⟨oa, hoa, hs⟩ := hsh u du hu
+    exact ⟨oa, by simp only; rw [List.getElem?_set_ne (Ne.symm huv)]; exact hoa, hs⟩
+
 /-! ### dropping a vector -/
 
 theorem map_val_inj : ∀ (l l' : List Nat), l.map Cell.val = l'.map Cell.val → l = l'
@@ -1004,6 +1101,101 @@ theorem lazy_push_refines (cfg : Cfg) (w : World) (ms : MSpec) (h : MRel w ms) (
   · refine nothing ⟨"called `Option::unwrap()` on a `None` value", ?_⟩ (Or.inl (by omega))
     simp only [step, WM.bind_apply, mkVal, getVec_ok w v d hd hl, hi, if_false, WM.panic_apply]
 
+/-- what consuming a lazy clone of item `i` of `v` by `u.insert(j, ..)` can lead to: one clone - a fresh identity - sits at
+position `j` of `u`, the items from `j` on moved up by one, and nothing else changes; or nothing at all happens (`i` out
+of range, other element type, `j` beyond the length, no room) -/
+inductive LazyInsStep (ms : MSpec) (u i j : Nat) (a au : AVec) : MSpec → Prop where
+  | cloned (c : Nat) (hi : i < a.items.length) (hty : a.ty = au.ty) (hj : j ≤ au.items.length)
+      (hroom : (au.spec ms.next).Room (some c)) :
+      LazyInsStep ms u i j a au
+        ⟨ms.vecs.set u (some { au with items := au.items.insertIdx j ms.next, cap := c }), ms.next + 1⟩
+  | nothing (h : a.items.length ≤ i ∨ a.ty ≠ au.ty ∨ au.items.length < j ∨ (au.spec ms.next).Room none) :
+      LazyInsStep ms u i j a au ms
+
+/-- **a lazy clone inserted anywhere - also at the very end - clones exactly once** (C09 against the abstract state) -/
+theorem lazy_insert_refines (cfg : Cfg) (w : World) (ms : MSpec) (h : MRel w ms) (v u i j dp : Nat) (hvu : v ≠ u)
+    (a au : AVec) (hv : ms.vecs[v]? = some (some a)) (hu : ms.vecs[u]? = some (some au)) :
+    ∃ ms', LazyInsStep ms u i j a au ms' ∧ MRel (step cfg (.insert u j (.lazyRef v i dp)) w).1 ms' ∧
+      (step cfg (.insert u j (.lazyRef v i dp)) w).2.notUb := by
+  obtain ⟨hinv, hf, hn, hlen, hsh⟩ := h
+  have hvlt : v < ms.vecs.length := (List.getElem?_eq_some_iff.mp hv).1
+  have hult : u < ms.vecs.length := (List.getElem?_eq_some_iff.mp hu).1
+  obtain ⟨d, hd⟩ : ∃ d, w.vecs[v]? = some d := ⟨w.vecs[v]'(by omega), List.getElem?_eq_getElem (by omega)⟩
+  obtain ⟨du, hdu⟩ : ∃ d, w.vecs[u]? = some d := ⟨w.vecs[u]'(by omega), List.getElem?_eq_getElem (by omega)⟩
+  obtain ⟨oa, hoa, hshow⟩ := hsh v d hd
+  rw [hv] at hoa; cases hoa
+  obtain ⟨hl, hty, habs, hcp, hbk⟩ := hshow
+  obtain ⟨oau, hoau, hshowu⟩ := hsh u du hdu
+  rw [hu] at hoau; cases hoau
+  obtain ⟨hlu, htyu, habsu, hcpu, hbku⟩ := hshowu
+  have hvalid : Hist.Valid w.vecs (.insert u j (.lazyRef v i dp)) :=
+    ⟨⟨du, hdu, hlu⟩, by intro v' i' dp' hh; cases hh; exact ⟨Ne.symm hvu, d, hd, hl⟩⟩
+  obtain ⟨hinv', hnub⟩ := Hist.step_inv cfg (.insert u j (.lazyRef v i dp)) w hinv trivial hvalid
+  have hg := hinv.good v d hd
+  have hgu := hinv.good u du hdu
+  have hlenA := Refine.abs_len hg.wf habs
+  have hlenU := Refine.abs_len hgu.wf habsu
+  have hwult : u < w.vecs.length := (List.getElem?_eq_some_iff.mp hdu).1
+  have nothing : (∃ m, step cfg (.insert u j (.lazyRef v i dp)) w = ({ w with fault := none }, .panic m)) →
+      (a.items.length ≤ i ∨ a.ty ≠ au.ty ∨ au.items.length < j ∨ (au.spec ms.next).Room none) →
+      ∃ ms', LazyInsStep ms u i j a au ms' ∧ MRel (step cfg (.insert u j (.lazyRef v i dp)) w).1 ms' ∧
+        (step cfg (.insert u j (.lazyRef v i dp)) w).2.notUb := by
+    intro hex hwhy
+    obtain ⟨m, hex⟩ := hex
+    refine ⟨ms, LazyInsStep.nothing hwhy, ?_, hnub⟩
+    rw [hex] at hinv' ⊢
+    exact ⟨hinv', rfl, hn, hlen, hsh⟩
+  by_cases hi : i < d.len
+  · have hc := Refine.cell_of_abs hg habs i hi
+    have hmk : mkVal cfg (.lazyRef v i dp) w = (w, .ok (.lazyElem v i)) := by
+      simp only [mkVal, WM.bind_apply, getVec_ok w v d hd hl, hi, if_true, WM.pure_apply]
+    by_cases htyeq : d.ty = du.ty
+    · by_cases hj : j ≤ du.len
+      · cases hr : du.reserveOne with
+        | ok p =>
+          obtain ⟨du1, es⟩ := p
+          have hins := AnyVec.insert_lazy_clones_once w v u i j _ d du du1 es hvu hd hl hg.wf hi hc hdu hlu hgu.wf htyeq hj hr hf
+          obtain ⟨hroom1, hlen1, ha1, hw1, hty1, _, _, _, hcl1, hbk1, hl1⟩ := reserveOne_spec du du1 es hgu.wf hr
+          have hex : step cfg (.insert u j (.lazyRef v i dp)) w =
+              ({ w with vecs := w.vecs.set u (du1.insertAt j (.val w.created)), created := w.created + 1,
+                        ev := Event.clone (a.items.getD i 0) w.created :: (es.reverse ++ w.ev) }, .ok []) := by
+            simp only [step, WM.bind_apply, hmk, hins, WM.pure_apply]
+          refine ⟨_, LazyInsStep.cloned du1.cap (by omega) (by rw [← hty, ← htyu]; exact htyeq) (by omega)
+            (Refine.room_ok hgu.wf habsu hcpu hbku.1 hr), ?_, hnub⟩
+          rw [hex] at hinv' ⊢
+          refine ⟨hinv', hf, by show w.created + 1 = ms.next + 1; rw [hn], by simp [hlen], ?_⟩
+          intro k dk hk
+          have hk' : (w.vecs.set u (du1.insertAt j (.val w.created)))[k]? = some dk := hk
+          by_cases hku : k = u
+          · subst hku
+            rw [List.getElem?_set_self hwult] at hk'
+            cases hk'
+            refine ⟨some { au with items := au.items.insertIdx j ms.next, cap := du1.cap }, by simp [hult], ?_⟩
+            refine ⟨by simp [VecSt.insertAt, hl1, hlu], by simp [VecSt.insertAt, hty1, htyu], ?_,
+              by simp [VecSt.insertAt], by simp [VecSt.insertAt, hbk1, hcl1, hbku]⟩
+            rw [VecSt.insertAt_abs du1 j _ hw1 (by omega), ha1, habsu, hn]
+            rw [Refine.map_insertIdx']
+          · rw [List.getElem?_set_ne (Ne.symm hku)] at hk'
+            obtain ⟨oa, hoa, hs⟩ := hsh k dk hk'
+            exact ⟨oa, by simp only; rw [List.getElem?_set_ne (Ne.symm hku)]; exact hoa, hs⟩
+        | panic m =>
+          refine nothing ⟨m, ?_⟩ (Or.inr (Or.inr (Or.inr (Refine.room_refused hgu.wf habsu hcpu hr))))
+          have hnot : ¬ (j > du.len) := by omega
+          simp only [step, WM.bind_apply, hmk, World.insert, getVec_ok w u du hdu hlu, valTy, getVec_ok w v d hd hl, htyeq,
+            ne_eq, not_true_eq_false, if_false, insertUnchecked, hnot, WM.onUnwind, vecOp, hr, WM.lift, valDrop, WM.pure_apply]
+        | ub m =>
+          have := reserveOne_notUb du
+          rw [hr] at this; exact this.elim
+      · refine nothing ⟨"Index out of range!", ?_⟩ (Or.inr (Or.inr (Or.inl (by omega))))
+        have hgt : j > du.len := by omega
+        simp only [step, WM.bind_apply, hmk, World.insert, getVec_ok w u du hdu hlu, valTy, getVec_ok w v d hd hl, htyeq,
+          ne_eq, not_true_eq_false, if_false, insertUnchecked, hgt, if_true, WM.onUnwind, WM.panic_apply, valDrop, WM.pure_apply]
+    · refine nothing ⟨"Type mismatch!", ?_⟩ (Or.inr (Or.inl (by rw [← hty, ← htyu]; exact htyeq)))
+      simp only [step, WM.bind_apply, hmk, World.insert, getVec_ok w u du hdu hlu, valTy, getVec_ok w v d hd hl, ne_eq, htyeq,
+        not_false_eq_true, if_true, WM.onUnwind, WM.panic_apply, valDrop, WM.pure_apply]
+  · refine nothing ⟨"called `Option::unwrap()` on a `None` value", ?_⟩ (Or.inl (by omega))
+    simp only [step, WM.bind_apply, mkVal, getVec_ok w v d hd hl, hi, if_false, WM.panic_apply]
+
 /-! ### identities are unique in every abstract state a world shows -/
 
 /-- the identities of one component (a dropped vector holds none) -/
@@ -1092,6 +1284,10 @@ inductive AOp where
   | withCap (ty : Nat) (bk : Backend) (cl : Bool) (n : Nat)
   /-- `swap(v.at_mut(i), u.at_mut(j))`: two elements of two vectors change places -/
   | eswap (v i u j : Nat)
+  /-- `k` values written into the spare capacity of `v`, then `set_len(len + k)` -/
+  | setLen (v k : Nat) (typed : Bool)
+  /-- `u.insert(j, v.at(i).lazy_clone())` -/
+  | insertLazy (v i dp u j : Nat)
   deriving Repr
 
 /-- the script step -/
@@ -1106,6 +1302,8 @@ def AOp.toOp (w : World) : AOp → Op
   | .cloneEmptyIn v bk => .cloneEmptyIn v bk
   | .withCap ty bk cl n => .withCap ty bk cl n
   | .eswap v i u j => .eswap v i u j
+  | .setLen v k typed => .setLenSpare v k typed
+  | .insertLazy v i dp u j => .insert u j (.lazyRef v i dp)
 
 /-- what the type system and the borrow checker guarantee about one step, read on the abstract state: the vectors it
 names are alive (and distinct), the operation exists on that storage, `clone()` only with `Cloneable` -/
@@ -1120,6 +1318,9 @@ def AOk (ms : MSpec) : AOp → Prop
   | .cloneEmptyIn v _ => ∃ a, ms.vecs[v]? = some (some a)
   | .withCap _ bk _ _ => VecSt.resizable bk = true
   | .eswap v _ u _ => v ≠ u ∧ (∃ a, ms.vecs[v]? = some (some a)) ∧ ∃ au, ms.vecs[u]? = some (some au)
+  /- `set_len` is `unsafe`: that the new length stays within the capacity is the caller's obligation -/
+  | .setLen v k _ => ∃ a, ms.vecs[v]? = some (some a) ∧ a.items.length + k ≤ a.cap
+  | .insertLazy v _ _ u _ => v ≠ u ∧ (∃ a, ms.vecs[v]? = some (some a)) ∧ ∃ au, ms.vecs[u]? = some (some au)
 
 /-- the abstract machine -/
 inductive AStep (cfg : Cfg) : MSpec → AOp → MSpec → Prop where
@@ -1157,6 +1358,12 @@ inductive AStep (cfg : Cfg) : MSpec → AOp → MSpec → Prop where
       AStep cfg ms (.withCap ty bk cl n) ⟨ms.vecs ++ [none], ms.next⟩
   | eswap (ms ms' : MSpec) (v i u j : Nat) (a au : AVec) (hv : ms.vecs[v]? = some (some a))
       (hu : ms.vecs[u]? = some (some au)) (h : SwapStep ms v u i j a au ms') : AStep cfg ms (.eswap v i u j) ms'
+  | setLen (ms : MSpec) (v k : Nat) (typed : Bool) (a : AVec) (hv : ms.vecs[v]? = some (some a))
+      (hroom : a.items.length + k ≤ a.cap) :
+      AStep cfg ms (.setLen v k typed)
+        ⟨ms.vecs.set v (some { a with items := a.items ++ List.range' ms.next k }), ms.next + k⟩
+  | insertLazy (ms ms' : MSpec) (v i dp u j : Nat) (a au : AVec) (hv : ms.vecs[v]? = some (some a))
+      (hu : ms.vecs[u]? = some (some au)) (h : LazyInsStep ms u i j a au ms') : AStep cfg ms (.insertLazy v i dp u j) ms'
 
 /-- **one step of a life cycle refines the abstract machine** -/
 theorem astep_refines (cfg : Cfg) (w : World) (ms : MSpec) (h : MRel w ms) (op : AOp) (hok : AOk ms op) :
@@ -1212,6 +1419,14 @@ theorem astep_refines (cfg : Cfg) (w : World) (ms : MSpec) (h : MRel w ms) (op :
     obtain ⟨hvu, ⟨a, hv⟩, au, hu⟩ := hok
     obtain ⟨ms', hs, hrel, hnub⟩ := eswap_refines cfg w ms h v u i j hvu a au hv hu
     exact ⟨ms', AStep.eswap ms ms' v i u j a au hv hu hs, hrel, hnub⟩
+  | setLen v k typed =>
+    obtain ⟨a, hv, hroom⟩ := hok
+    obtain ⟨hrel, hres, _⟩ := set_len_refines cfg w ms h v k typed a hv hroom
+    exact ⟨_, AStep.setLen ms v k typed a hv hroom, hrel, by simp only [AOp.toOp]; rw [hres]; trivial⟩
+  | insertLazy v i dp u j =>
+    obtain ⟨hvu, ⟨a, hv⟩, au, hu⟩ := hok
+    obtain ⟨ms', hs, hrel, hnub⟩ := lazy_insert_refines cfg w ms h v u i j dp hvu a au hv hu
+    exact ⟨ms', AStep.insertLazy ms ms' v i dp u j a au hv hu hs, hrel, hnub⟩
 
 /-- run a script -/
 def arun (cfg : Cfg) : World → List AOp → World
